@@ -111,6 +111,8 @@ def run(F, R, ctx):
     if "jit2" in (F.meta.get("features") or []):
         jitmodel.helper_panic_rule(F, R, "C07.j")
         jitmodel.name_table_gate_rule(F, R, "C02.n")
+        jitmodel.branch_facts_rule(F, R, "C02.f")
+        jitmodel.assigned_local_rule(F, R, "C02.k")
     slice_guard_rule(F, R)
     arg_conversion_rule(F, R)
     select_rule(F, R)
